@@ -9,14 +9,25 @@ PROFILES = ["release"]
 SHRINK_SEP = ";"
 RULE = ("one case = one operation history `item ctor n values ; op ; op ...` run on the real Segtree, the Lean model and the "
         "plain-list spec. Items: Min/Max/Sum/MinAdd/MaxAdd/SumAdd at i64, Combinator<MinAdd,MaxAdd>, "
-        "Combinator<Combinator<SumAdd,MinAdd>,MaxAdd>, the lawful non-commutative harness items affHash (affine modifiers, "
+        "Combinator<Combinator<SumAdd,MinAdd>,MaxAdd> - and the same eight at the element types i8, u8, i32, u32, u64, isize, usize "
+        "(item tokens `minadd:u8`, `mm:u32`, ...; stream 2b) -, the lawful non-commutative harness items affHash (affine modifiers, "
         "which do not commute) and strCat, Combinator<affHash,affHash>, and flip-a-range/count-ones as a lazy item with the "
         "zero-sized modifier `()` (flipz) and with a one-byte modifier (flipb). One element in six carries a pending modifier of its own "
         "(`v@md`, as a snapshot taken with ask(i,i) does). Streams: (1) every history of length <= 3 over n <= 4 (length 4 over n = 3, length 5 over "
         "n = 2 in thorough; one shorter in quick) for affHash, strCat (two-element non-commuting modifier alphabets) and flipz; "
         "(2) random histories, constructor new/from_slice/from_iter x n in 1..17 (7/8) or {31,32,33,63,64,65,100,127,128,129} (1/8), "
-        "op mix set 19% / modify 31% / ask 37% / lower_bound 6% / lower_bound_rev 6% / debug; (3) a small out-of-domain stream for the "
-        "API's asserts and the empty constructors. Operations outside 0 <= l <= r < n are outside the property's domain: their view "
+        "op mix set 19% / modify 31% / ask 37% / lower_bound 6% / lower_bound_rev 6% / debug; (2b) typed histories: every (item, element type) pair x five "
+        "value modes (elements at T::MAX, at T::MIN, at both ends / uniform over the type, around the signed-unsigned boundary iN::MAX seen "
+        "as uN, small), twice per run (40x in thorough): elements exactly at the type's extreme values, modifiers chosen from the interval "
+        "that keeps every element, every pending-tag window sum and (sum items) the sum of absolute values inside the type (a "
+        "tree-independent conservative bookkeeping, `Budget` in typed.rs: 0, the largest step up / down the type still allows - so elements "
+        "reach T::MIN / T::MAX exactly and leave them inward -, small steps), search thresholds at T::MIN, T::MIN+1, T::MAX-1, T::MAX, "
+        "iN::MAX(+1) for unsigned types and next to the actual aggregates (`typed_*` keys of generator_histogram); (2c) `const <type>`: "
+        "<T as MinMax>::MIN/MAX and <T as ZeroOne>::ZERO/ONE of all twelve integer types against the model's IntTy bounds; (2d) five "
+        "histories that overflow the element type (`S any`); (3) a small out-of-domain stream for the "
+        "API's asserts and the empty constructors. Machine overflow is outside the domain: for the typed items the driver runs the model "
+        "together with an overflow guard (guardItem: every merge / modify / push call checked against the element type, sticky flag per "
+        "node) and answers `S any` for the whole line if any call of the history would overflow. Operations outside 0 <= l <= r < n are outside the property's domain: their view "
         "and spec are `ood` on all sides (the model still mirrors the panic in raw, so a changed assert is drift, not a violation). "
         "Plain values are built with the items' own From<i64>; `v@md` values with struct literals. "
         "Compared: `{:?}` of every returned item (raw), observable value of every ask, every debug() rendering, answers and probe "
@@ -24,7 +35,8 @@ RULE = ("one case = one operation history `item ctor n values ; op ; op ...` run
         "tag on their way down (`*_pushed_pending_tag`). non-trivial = history with at least one range modification followed by a query")
 ASSUMPTIONS = [
     "the Lean model of rlib_segtree is hand-written (recursion tree instead of the implicit array); it is tied to the code by running both on the same histories",
-    "values and modifiers are kept far below 2^63: integer overflow inside the built-in items is outside the property's domain",
+    "integer overflow inside the built-in items is outside the property's domain: at i64 values and modifiers are kept far below 2^63; at the narrow / unsigned element types the generator keeps every history inside the type by construction and the Lean driver decides independently (overflow guard run with the model, proved not to change any observable answer: guarded_lawful, guarded_spec_is_item_spec) - an overflowing history gets `S any`. The guard mirrors the arithmetic of the items' merge/modify/push as written in segtree_items.rs (hand-written, cross-checked against the real overflow panics: 6000 random i8/u8 histories, guard flag <=> panic:overflow)",
+    "the trait constants <T as MinMax>::MIN/MAX, <T as ZeroOne>::ZERO/ONE equal the model's IntTy.minVal/maxVal, 0, 1: compared for all twelve integer types on every run (`const <type>` lines)",
     "the item laws (Lawful) are proved for the Lean instances; that the Rust items are those instances is checked by the same differential run",
 ]
 TRUSTED_EXTRA = ["harness items affHash/strCat are defined twice (Rust, Lean) and compared by the differential run"]
@@ -33,12 +45,13 @@ MANIFEST = {
     "text": ("Lean 4 theorems over an abstract lawful item (merge only associative, modifiers need not commute; the overridable `update` that "
              "merge_at calls is a field of the item with its own law): build/set/ask/modify of the "
              "modelled lazy tree refine a plain list (ask = in-order fold, modify = modifier applied to each covered element), for every "
-             "size, every history (history_refines) and all three constructors; the six built-in items, every Combinator nesting and the "
-             "harness's non-commutative items are proved lawful; a Combinator tree answers every set/modify/ask/debug history with the pairs of "
+             "size, every history (history_refines) and all three constructors; the six built-in items at every integer element type "
+             "(the type fixes Default = <T as MinMax>::MAX / MIN), every Combinator nesting and the "
+             "harness's non-commutative items are proved lawful; running an item together with the overflow guard changes no observable answer; a Combinator tree answers every set/modify/ask/debug history with the pairs of "
              "its component trees' answers (prod_runs_side_by_side). The hand-written model is tied to rlib_segtree by a differential "
              "correspondence run on every check."),
     "note": ("Trusted: Lean kernel, axioms propext/Classical.choice/Quot.sound, the hand-written model (recursion tree; the array layout "
-             "2i+1/2i+2 is exercised only by the differential run), harness and driver plumbing. Integer overflow is outside the domain."),
+             "2i+1/2i+2 is exercised only by the differential run), harness and driver plumbing. Integer overflow is outside the domain (decided per history by the model's overflow guard for the narrow / unsigned element types)."),
     "technique": "Lean 4 proof of a hand-written model + differential correspondence check against the Rust crate",
     "design_ref": "DESIGN.md §6 C01",
 }
